@@ -861,7 +861,7 @@ class ContactlessFrontend(object):
                         else:
                             info = "unknown technology type in %r"
                             raise UnsupportedTargetError(info % target.brty)
-                    except UnsupportedTargetError as error:
+                    except (UnsupportedTargetError, ValueError) as error:
                         if len(targets) == 1:
                             raise error
                         else:
